@@ -210,6 +210,10 @@ func main() {
 	in := bufio.NewReaderSize(os.Stdin, 1<<20)
 	out := bufio.NewWriterSize(os.Stdout, 1<<20)
 	defer out.Flush()
+	// packages generated with -debug_lexer / -debug_parser print to os.Stdout: keep the protocol clean
+	if devnull, err := os.OpenFile(os.DevNull, os.O_WRONLY, 0); err == nil {
+		os.Stdout = devnull
+	}
 	for {
 		line, err := in.ReadString('\n')
 		if len(line) > 0 {
